@@ -45,7 +45,7 @@ REACH = ["hop_appended_honest", "keys_equal_checked", "retry_happened", "answer_
          "fault:flip_auth", "fault:flip_ident", "fault:flip_cid", "fault:flip_cand", "fault:swap_ident", "fault:swap_cid", "fault:swap_cid_exit",
          "fault:replay_old", "fault:subst_key", "fault:subst_key_nocand", "crafted_answer_rejected", "subst_accepted_but_underivable", "hops:3",
          "extend_waits_for_peer_lookup", "join_policy_suspended", "fault:swap_answer", "answer_relabelled_for_circuit_built_in_same_round", "fault:bad_cand_key",
-         "required_exit_known_under_stale_address"]
+         "required_exit_known_under_stale_address", "application_cancelled_circuit_ready"]
 
 KINDS = ["flip_key", "flip_auth", "flip_ident", "flip_cid", "flip_cand", "swap_ident", "swap_cid", "swap_cid_exit", "replay_old",
          "subst_key", "subst_key_nocand", "dup_answer", "swap_answer", "bad_cand_key"]
@@ -69,6 +69,12 @@ def cases(tier: str, base_seed: int):  # noqa: ANN201
             n += 1
             yield {"seed": base_seed + n, "knobs": {"dup": dup, "lat_jit": 0.01}, "hops": hops, "nodes": 5, "circuits": 3, "nht": 10,
                    "who": None, "faults": [], "join_delay": delay}
+    # the application stops waiting for the circuit (asyncio.wait_for(circuit.ready, t) cancels the future) while it is being built
+    for hops in (1, 2, 3):
+        for t in (0.01, 0.2):
+            n += 1
+            yield {"seed": base_seed + n, "knobs": {"lat_jit": 0.0}, "hops": hops, "nodes": 5, "circuits": 2, "nht": 3, "who": None, "faults": [],
+                   "cancel_ready": t}
     for hops in (2, 3):
         n += 1
         yield {"seed": base_seed + n, "knobs": {}, "hops": hops, "nodes": 6, "circuits": 2, "nht": 10, "who": None, "faults": [],
@@ -109,6 +115,8 @@ def cases(tier: str, base_seed: int):  # noqa: ANN201
             case["blind"] = rng.choice([0.05, 0.15, 0.5, 1.5, 4.0])
         if rng.random() < 0.3:
             case["join_delay"] = rng.choice([0.01, 0.05, 0.3])
+        if rng.random() < 0.1:
+            case["cancel_ready"] = rng.choice([0.01, 0.1, 0.5, 2.5])
         if rng.random() < 0.3:
             # a tuning knob: how long a node remembers that it joined a circuit whose owner may still extend it (default 60 s)
             case["unstable"] = rng.choice([2, 5, 10])
@@ -226,7 +234,13 @@ def execute(case: dict) -> dict:  # noqa: C901, PLR0915
         for i, (pk, kb) in enumerate(snap):
             if i < len(self.hops) and (self.hops[i].public_key_bin != pk or kbytes(self.hops[i].keys) != kb):
                 c.violate("established_hops_immutable", "established_hop_changed", f"hop {i + 1} of circuit {self.circuit_id} changed")
-        orig_add_hop(self, hop)
+        try:
+            orig_add_hop(self, hop)
+        finally:
+            if len(self.hops) > self.goal_hops:
+                c.violate("hop_is_selected_peer", "hop_appended_beyond_goal",
+                          f"circuit {self.circuit_id} was asked for {self.goal_hops} hop(s) and now has {len(self.hops)}: "
+                          f"{[h.public_key_bin.hex()[-8:] for h in self.hops]}")
         idx = len(self.hops) - 1
         snap.append((hop.public_key_bin, kbytes(hop.keys)))
         sel = selections.get((onode, self.circuit_id))
@@ -621,6 +635,14 @@ def execute(case: dict) -> dict:  # noqa: C901, PLR0915
         for _ in range(0 if case.get("rounds") else case["circuits"]):
             circs.append(o.call(o.ov.create_circuit, hops, required_exit=required) if required is not None
                          else o.call(o.ov.create_circuit, hops))
+            if case.get("cancel_ready") is not None and circs[-1] is not None:
+                # the application waits for the circuit with a time-out (asyncio.wait_for(circuit.ready, t)): when it expires,
+                # wait_for CANCELS the future it was given; the circuit itself goes on being built
+                def give_up_waiting(ci=circs[-1]) -> None:  # noqa: ANN001
+                    if not ci.ready.done():
+                        ci.ready.cancel()
+                        world.probe("application_cancelled_circuit_ready")
+                world.loop.call_later(float(case["cancel_ready"]), give_up_waiting)
             await asyncio.sleep(case.get("stagger") or rng.choice([0.0, 0.05, 1.0]))
         # let handshakes, retries and give-ups play out (circuit_timeout is 60 s)
         for _ in range(14):
